@@ -1255,6 +1255,74 @@ static void runSweep(const Case &c) {
   }
 }
 
+// FMINDEX as its query layer sees it: the BWT sequence (through the wavelet tree), occ, alphabet, the
+// sampling structures, and its own answers; re-validated by the Lean driver (`fmchk`), which rebuilds
+// the index with the model (sorted rows of the text) and runs the models of locate_id / locateP /
+// locate / extract_id on the exported structure.
+#include "StringDictionaryFMINDEX.h"
+static void runFm(const Case &c) {
+  size_t len = 0;
+  uchar *buf = plain(c.strs, len, 0);
+  IteratorDictString *it0 = new IteratorDictStringPlain(buf, len);
+  StringDictionaryFMINDEX *d = new StringDictionaryFMINDEX(it0, c.geti("rrr", 0) != 0, (uint)c.geti("bs", 20), (uint)c.geti("bwt", 4));
+  delete it0;
+  for (auto &op : c.ops) {
+    g_op++;
+    if (op[0] == "reload") {
+      std::stringstream ss(std::ios::in | std::ios::out | std::ios::binary);
+      d->save(ss);
+      StringDictionary *d2 = StringDictionaryFMINDEX::load(ss);
+      delete d; d = (StringDictionaryFMINDEX *)d2;
+      emit("RQ reloaded");
+    } else if (op[0] == "fm") { // fm <absent queries|-> <prefixes|-> <substrings|->
+      SSA *fm = d->fm_index;
+      string bwt, occ, alpha, sampled, samp, loc, qa, pre, sub, ext;
+      for (size_t i = 0; i <= fm->n; i++) bwt += (i ? "," : "") + std::to_string(fm->bwt->access(i));
+      for (uint i = 0; i < fm->maxV + 1; i++) occ += (i ? "," : "") + std::to_string(fm->occ[i]);
+      for (uint i = 0; i < 256; i++) alpha += fm->alphabet[i] ? '1' : '0';
+      if (fm->samplesuff > 0) {
+        for (size_t i = 0; i < fm->sampled->getLength(); i++) sampled += fm->sampled->access(i) ? '1' : '0';
+        for (uint i = 0; i < (fm->n + 1) / fm->samplesuff + 1; i++) samp += (i ? "," : "") + std::to_string(fm->suff_sample[i]);
+      }
+      for (size_t i = 0; i < c.strs.size(); i++) {
+        Pat p(c.strs[i]);
+        loc += (i ? "," : "") + std::to_string(d->locate(p.p, (uint)p.n));
+      }
+      if (op.size() > 1 && op[1] != "-")
+        for (auto &h : splitc(op[1])) {
+          Pat p(unhex(h));
+          qa += (qa.empty() ? "" : ",") + std::to_string(d->locate(p.p, (uint)p.n));
+        }
+      if (op.size() > 2 && op[2] != "-")
+        for (auto &h : splitc(op[2])) {
+          Pat p(unhex(h));
+          IteratorDictIDContiguous *it = (IteratorDictIDContiguous *)d->locatePrefix(p.p, (uint)p.n);
+          pre += (pre.empty() ? "" : ",") + std::to_string(it->getLeftLimit()) + ":" + std::to_string(it->getRightLimit());
+          delete it;
+        }
+      if (op.size() > 3 && op[3] != "-" && fm->samplesuff > 0)
+        for (auto &h : splitc(op[3])) {
+          Pat p(unhex(h));
+          IteratorDictID *it = d->locateSubstr(p.p, (uint)p.n);
+          bool ovf; vector<size_t> v = drainIds(it, ovf);
+          string one;
+          for (size_t t = 0; t < v.size(); t++) one += (t ? "." : "") + std::to_string(v[t]);
+          sub += (sub.empty() ? "" : ",") + (one.empty() ? string("e") : one) + (ovf ? "!" : "");
+        }
+      for (size_t id = 0; id <= d->numElements() + 1; id++) {
+        uint l = 0; uchar *s = d->extract(id, &l);
+        ext += (id ? "," : "") + (s ? "x" + hex(s, strlen((char *)s)) : string("N"));
+        delete[] s;
+      }
+      emit("FM n=%u el=%zu ml=%u bwt=%s occ=%s alpha=%s ss=%u sampled=%s samp=%s loc=%s abs=%s pre=%s sub=%s ext=%s", fm->n,
+           (size_t)d->numElements(), (uint)d->maxLength(), bwt.c_str(), occ.c_str(), alpha.c_str(), fm->samplesuff, sampled.empty() ? "-" : sampled.c_str(),
+           samp.empty() ? "-" : samp.c_str(), loc.empty() ? "-" : loc.c_str(), qa.empty() ? "-" : qa.c_str(), pre.empty() ? "-" : pre.c_str(),
+           sub.empty() ? "-" : sub.c_str(), ext.c_str());
+    } else emit("ERR unknown-op");
+  }
+  delete d;
+}
+
 // ---------------------------------------------------------------------------
 static void runCase(const Case &c) {
   if (c.stream == "dict") runDict(c);
@@ -1269,6 +1337,7 @@ static void runCase(const Case &c) {
   else if (c.stream == "sweep") runSweep(c);
   else if (c.stream == "rpdac") { if (c.kind == "HASHRPDAC") runHrpdac(c); else if (c.kind == "HASHRPF") runHrpf(c); else runRpdac(c); }
   else if (c.stream == "hhf") runHhf(c);
+  else if (c.stream == "fm") runFm(c);
   else emit("ERR unknown-stream %s", c.stream.c_str());
 }
 
